@@ -4,6 +4,7 @@ E2: writer-produced IPM files and arbitrary-byte parameter files x every ordered
 tools x every entry point (function with file objects, cli_run on real files, argparse entry with argv).
 """
 import contextlib
+import copy
 import io
 import itertools
 import os
@@ -35,6 +36,15 @@ def ipm_file(seq, enc, fmt):
         else:
             _, m = c06.shape_message(sh, i)
         msgs.append(m)
+    if len(seq) % 2 == 0:
+        # every other file is laid out by the REFERENCE encoder instead of the library's own writer ("an IPM file" need
+        # not come from this process): a writer and a converter that are wrong in the same way cannot hide each other
+        try:
+            recs = [iso_ref.encode(copy.deepcopy(m), corpus.cfg_of('PKG'), enc, False)[0] for m in msgs]
+            stream = vbs_ref.frame(recs)
+            return blk_ref.block(stream) if fmt == '1014' else stream
+        except iso_ref.RefError:
+            pass        # a shape the strict reference encoder does not take (over-wide fixed text): library writer
     return c06.write_file(msgs, 'PKG', enc, fmt == '1014')
 
 
